@@ -160,7 +160,13 @@ def args_for_case(case, sub=None):
         args.append(sub)
     has_diff = case.get("diff") is not None
     if case.get("scan") and has_diff:
-        args.append("**")
+        allow, walk = case.get("allow") or [], case.get("walk") or []
+        if sorted(allow) == sorted(walk):
+            args.append("**")
+        elif allow:
+            args += allow                      # the path arguments cover only some of the files (literal paths are globs)
+        else:
+            args.append("zz-no-such-dir/**")   # path arguments that match nothing
     return args, has_diff
 
 
